@@ -56,6 +56,36 @@ Proof.
   - apply grid_outside; auto. exact (proj1 C18_ex_outside).
 Qed.
 
+(* ------------------------------------------------------------------ utils.generate_quick_linesample_arrays
+   (get_linesample + _downcast_index_array: sentinel [size] for out-of-range indices, uint16 cast = mod 2^16 when
+   size <= 65535, int32 kept otherwise) consumed by ImageContainer.get_array_from_linesample.  The statements hold for
+   ALL fractional indices, in particular <= -65536 and >= 65536 + size where the unsigned cast would wrap. *)
+Theorem C18_quick_linesample_is_grid_cell : forall a x y, wf_area a -> quick_cell RO a x y = grid_cell RO a x y.
+Proof. exact quick_is_grid. Qed.
+Print Assumptions C18_quick_linesample_is_grid_cell.
+Theorem C18_quick_linesample_cell_implies_extent : forall a x y r c, wf_area a ->
+  quick_cell RO a x y = Some (r, c) -> valid_cell a r c /\ in_cell_closed a r c x y.
+Proof. exact quick_sound. Qed.
+Print Assumptions C18_quick_linesample_cell_implies_extent.
+Theorem C18_quick_linesample_interior_implies_cell : forall a x y r c, wf_area a -> fits_int32 a ->
+  valid_cell a r c -> in_cell_open a r c x y -> quick_cell RO a x y = Some (r, c).
+Proof. exact quick_complete. Qed.
+Print Assumptions C18_quick_linesample_interior_implies_cell.
+Theorem C18_quick_linesample_outside_is_none : forall a x y, wf_area a -> ~ in_extent a x y -> quick_cell RO a x y = None.
+Proof. exact quick_outside. Qed.
+Print Assumptions C18_quick_linesample_outside_is_none.
+(* dropping the `index_array < 0` part of the mask: 65536 pixels left of a 10 x 10 area wraps to column 0 *)
+Theorem C18_quick_linesample_unmasked_refuted : exists (a : area R) (x y : R),
+  wf_area a /\ ~ in_extent a x y /\ quick_cell_unmasked RO a x y = Some (5%Z, 0%Z).
+Proof. exact quick_unmasked_refuted. Qed.
+Print Assumptions C18_quick_linesample_unmasked_refuted.
+Example C18_quick_f64 :
+  let a := mk_area 0%float 0%float 10%float 10%float 10 10 in
+  quick_cell F64 a (-65535.5)%float 4.5%float = None /\ quick_col F64 a (-65535.5)%float = 10%Z /\
+  quick_cell_unmasked F64 a (-65535.5)%float 4.5%float = Some (5%Z, 0%Z) /\
+  quick_cell F64 a 65536.5%float 4.5%float = None /\ quick_cell F64 a 0.5%float 4.5%float = Some (5%Z, 0%Z).
+Proof. vm_compute. repeat split. Qed.
+
 (* ------------------------------------------------------------------ GridFilter.get_valid_index *)
 Theorem C18_gridfilter_cell_implies_extent : forall a x y r c, wf_area a ->
   gf_cell RO a x y = Some (r, c) -> valid_cell a r c /\ in_cell_closed a r c x y.
